@@ -13,3 +13,99 @@ Proof. vm_compute. reflexivity. Qed.
 
 Lemma known_unsafe_empty : known_unsafe = [].
 Proof. reflexivity. Qed.
+
+(* ------------------------------------------------------------------------------------------------
+   Validation of the extraction against the real readers (harness/src/bin/c01l.rs): the layout term is
+   interpreted in the environment determined by concrete bytes and compared with what `T::read` and the
+   marker's pub `*_byte_range` functions returned.  Only unsigned scalars are decoded (the sample of tables
+   in the harness has no signed count fields). *)
+Open Scope Z_scope.
+
+Fixpoint be_at (bytes : list Z) (p w : nat) (acc : Z) : Z :=
+  match w with
+  | O => acc
+  | S w' => be_at bytes (S p) w' (acc * 256 + nth p bytes 0)
+  end.
+
+Fixpoint popcount (n : nat) (v : Z) : Z :=
+  match n with O => 0 | S k => v mod 2 + popcount k (v / 2) end.
+
+Definition satu (z : Z) : Z := Z.min usize_max (Z.max 0 z).
+
+(* read-fonts/src/lib.rs `mod transforms` *)
+Definition real_fn (name : string) (a : list Z) : Z :=
+  match a with
+  | [x] => if String.eqb name "transforms::half" then x / 2
+           else if String.eqb name "transforms::bitmap_len" then (x + 7) / 8
+           else 0
+  | [x; y] => if String.eqb name "transforms::subtract" then Z.max 0 (x - y)
+              else if String.eqb name "transforms::add" then satu (x + y)
+              else if String.eqb name "transforms::subtract_add_two" then satu (Z.max 0 (x - y) + 2)
+              else 0
+  | [x; y; z] => if String.eqb name "transforms::add_multiply" then satu (satu (x + y) * z)
+                 else if String.eqb name "transforms::multiply_add" then satu (satu (x * y) + z)
+                 else 0
+  | _ => 0
+  end.
+
+(* hand-written ComputeSize impls of the sampled tables *)
+Definition vr_len (fmt : Z) : Z := popcount 16 fmt * 2.
+Definition real_csize (ty : string) (a : list Z) : option Z :=
+  match a with
+  | [x] => if String.eqb ty "ValueRecord" then Some (vr_len x)
+           else if String.eqb ty "Tuple" then Some (x * 2)
+           else if String.eqb ty "U16Or32" then Some (if Z.odd x then 4 else 2)
+           else None
+  | [x; y] => if String.eqb ty "PairValueRecord" then Some (2 + vr_len x + vr_len y)
+              else if String.eqb ty "InstanceRecord" then Some y
+              else if String.eqb ty "DeviceRecord" then Some y
+              else None
+  | _ => None
+  end.
+
+(* vkind: 0 = MajorMinor, 1 = Version16Dot16 (minor in the top nibble of the low half) *)
+Definition real_cond (vkind : Z) (test : string) (v : Z) : bool :=
+  match lookup test cond_sems with
+  | Some (CGe n) => n <=? v
+  | Some (CMajMin a b) => (v / 65536 =? a) && (b <=? (if vkind =? 0 then v mod 65536 else (v mod 65536) / 4096))
+  | Some (CMaskAll m) => Z.land v m =? m
+  | Some (CMaskAny m) => negb (Z.land v m =? 0)
+  | None => false
+  end.
+
+Definition real_env (vkind : Z) (bytes : list Z) : env :=
+  mk_env (fun p w => be_at bytes (Z.to_nat p) (Z.to_nat w) 0) real_fn real_csize (real_cond vkind)
+         (fun _ _ _ => None).
+
+(* case = (table, vkind, args, bytes, what the implementation did: None = read returned Err,
+   Some ranges = every `shape().f_byte_range()`, None for an absent optional range) *)
+Definition lcase : Type := (string * Z * list Z * list Z * option (list (string * option (Z * Z))))%type.
+
+Definition rval_matches (rv : list (string * rval)) (x : string * option (Z * Z)) : bool :=
+  match lookup (fst x) rv, snd x with
+  | Some RAbsent, None => true
+  | Some (RRange a b), Some (a', b') => (a =? a') && (b =? b')
+  | _, _ => false
+  end.
+
+Definition check_case (c : lcase) : bool :=
+  match c with
+  | (name, vkind, argv, bytes, expect) =>
+    match find (fun L => String.eqb (r_name L) name) all_layouts with
+    | None => false
+    | Some L =>
+      let E := real_env vkind bytes in
+      let len := Z.of_nat (List.length bytes) in
+      match run_read L argv E len, expect with
+      | None, None => true
+      | Some m, Some rs =>
+          match ranges_of L m with
+          | Some rv => (Nat.eqb (List.length rv) (List.length rs)) && forallb (rval_matches rv) rs
+                       && forallb (fun g => match eval_getter L E m len g with GValue | GAbsent => true | _ => false end)
+                                  (r_getters L)
+          | None => false
+          end
+      | _, _ => false
+      end
+    end
+  end.
